@@ -229,8 +229,13 @@ def rule_c12_r1(model: Model) -> RuleResult:
 
     writers: t.Dict[str, str] = {}
     from ..cfg import returned_values
+    internal_forms: t.List[str] = []
     for (val_e, n) in returned_values(wcfg):
-        writers[layout_of(wcfg, wnz, n)] = tagnorm(wnz.expr(val_e, n))
+        lay_ = layout_of(wcfg, wnz, n)
+        form_ = tagnorm(wnz.expr(val_e, n))
+        if lay_ == 'internal':
+            internal_forms.append(form_)
+        writers[lay_] = form_
     conv = f"self.converters[self.tag_map[{TAGV}]].into_data(VAL)"
     expected_w = {
         'internal': conv,
@@ -244,6 +249,10 @@ def rule_c12_r1(model: Model) -> RuleResult:
         if got is None:
             r.fail(w.qualname, f"{lay} layout not written", w.loc(), f"into_data has no branch for the {lay} layout")
         elif got == want or (lay == 'adjacent' and got == '{' + f"self.external.1: {conv}, self.external.0: {TAGV}" + '}'):
+            r.ok()
+        elif lay == 'internal' and internal_forms and all(
+                x in (conv, '{' + f"self.tag: {TAGV}, **: {conv}" + '}', '{' + f"**: {conv}, self.tag: {TAGV}" + '}') for x in internal_forms):
+            # the variant's own output, with the tag added under the key the reader pops where the variant does not write it (C12-R9)
             r.ok()
         else:
             r.fail(w.qualname, f"{lay}: {got[:150]}", w.loc(),
